@@ -162,7 +162,10 @@ Print Assumptions C19_finalize_unmaps_everything.
    own_ok psh h: a span is owned by at most one size class; a span owned by a class lies outside every
    large/huge block; large/huge blocks occupy pairwise disjoint runs of spans.
    It holds after ANY sequence of l_alloc calls (free, realloc in place, realloc by allocate-copy-free,
-   over all four size regimes, any pointers/sizes/environment answers) that the model accepts. *)
+   over all four size regimes, any pointers/sizes/environment answers) that the model accepts.
+   NOTE: histories in which the environment offers a span that is in use are excluded by construction
+   (l_alloc answers CErrOracle, lrun = None); C19_heap_allocate_not_refused_partial shows that spans
+   coming out of the span layer are never refused, one step at a time. *)
 Theorem C19_lalloc_history_ownership : forall psh calls h, lrun psh heap_empty calls = Some h -> own_ok psh h.
 Proof. exact lalloc_history_ownership. Qed.
 Print Assumptions C19_lalloc_history_ownership.
@@ -212,3 +215,19 @@ Theorem C19_contents_preserved : forall m old new osize nsize usable_new,
   (forall a, a < new \/ new + usable_new <= a -> m' a = m a).
 Proof. exact contents_preserved. Qed.
 Print Assumptions C19_contents_preserved.
+
+(* one step of the combined machine: when the spans the heap owns are the other span objects of a
+   span-layer state (coupling) and the span object has the shape the request needs, the heap model
+   never answers CErrOracle: a span cannot be handed out twice, and a cached M-span served for an
+   N-span request is accepted with its M spans.  (That the coupling is MAINTAINED along a combined
+   history is not proved: see UNPROVED.) *)
+Theorem C19_heap_allocate_not_refused_partial : forall psh h ss l1 o l2 size,
+  pairwise obj_disjoint (objs ss) -> objs ss = l1 ++ o :: l2 -> coupled psh h (l1 ++ l2) ->
+  match regime_of size with
+  | Small | Medium => so_count o = 1
+  | Large => large_span_count size <= so_count o <= LARGE_CLASS_COUNT
+  | Huge => match huge_request psh size with Some np => so_count o = big_units psh (BHuge np) | None => True end
+  end ->
+  heap_allocate psh h size (so_start o) (so_count o) <> CErrOracle.
+Proof. exact heap_allocate_not_refused. Qed.
+Print Assumptions C19_heap_allocate_not_refused_partial.
